@@ -124,25 +124,6 @@ theorem eq_fin_of_pos {x : F} (hf : x.isFinite = true) {n : Nat} (hn : 0 < n) (h
   | inf s => simp [F.isFinite] at hf
   | nan => simp [F.isFinite] at hf
 
-/-- `static_cast<uint64_t>` of the exact double of a non-negative integer below 2^63 and below 2^p returns the integer -/
-theorem toU64_ofInt_small (v : Nat) (hv : v < 2 ^ ConvDD.b64.p) (hv0 : v ≠ 0) :
-    ofInt ConvDD.b64 (v : Int) = .fin false (v * 2 ^ ConvDD.b64.q) ∧ ConvDD.toU64 (.fin false (v * 2 ^ ConvDD.b64.q)) = v := by
-  have hp53 : ConvDD.b64.p = 53 := by decide
-  have hv63 : v < 2 ^ 63 := by
-    rw [hp53] at hv; exact lt_trans hv (by decide)
-  constructor
-  · obtain ⟨h1, h2, _⟩ := ofInt_exact ConvDD.b64 (by decide) (by decide) (z := (v : Int)) (by simpa using hv)
-    have hpos : 0 < v * 2 ^ ConvDD.b64.q := Nat.mul_pos (Nat.pos_of_ne_zero hv0) (Nat.two_pow_pos _)
-    exact eq_fin_of_pos h1 hpos (by rw [h2]; push_cast; ring)
-  · have hsh : (v * 2 ^ ConvDD.b64.q) >>> ConvDD.b64.q = v := by
-      rw [Nat.shiftRight_eq_div_pow, Nat.mul_div_cancel _ (Nat.two_pow_pos _)]
-    have hlt : (v : Int) < (2 ^ 63 : Int) := by exact_mod_cast hv63
-    have hge : -(2 ^ 63 : Int) ≤ (v : Int) := by omega
-    unfold ConvDD.toU64 toI64 truncInt
-    simp only [Bool.false_eq_true, if_false, hsh]
-    rw [if_pos hlt, if_pos ⟨hge, hlt⟩, ofSigned_natCast]
-    exact Nat.mod_eq_of_lt (lt_trans hv63 (by decide))
-
 end UVerif.ConvDDLemmas
 
 namespace UVerif.ConvDDLemmas
@@ -206,102 +187,96 @@ theorem wrapI64_sub_pow {z : Int} (h1 : (2 ^ 63 : Int) ≤ z) (h2 : z < (2 ^ 64 
   have : z % (2 ^ 64 : Int) = z := Int.emod_eq_of_lt (by omega) h2
   rw [this, if_neg (by omega)]
 
-/-- `qd = int64`: x0 is the correctly rounded integer, x1 the exact remainder — the two limbs sum to v for EVERY int64
-    (the x86 conversion of 2^63 to int64 gives −2^63, and the wrapping subtraction repairs it). -/
-theorem qdFromI64_exact (v : Int) (h1 : -(2 ^ 63 : Int) ≤ v) (h2 : v < (2 ^ 63 : Int)) (hv0 : v ≠ 0) (p2 p3 : F) :
-    (ConvDD.qdFromI64 v p2 p3).1.Rep binary64 ∧ (ConvDD.qdFromI64 v p2 p3).2.1.Rep binary64 ∧
-    (ConvDD.qdFromI64 v p2 p3).1.toInt + (ConvDD.qdFromI64 v p2 p3).2.1.toInt = v * ((2 ^ binary64.q : Nat) : Int) ∧
-    (ConvDD.qdFromI64 v p2 p3).1.toInt = rnInt binary64.p (v * ((2 ^ binary64.q : Nat) : Int)) ∧
-    (ConvDD.qdFromI64 v p2 p3).2.2 = (p2, p3) := by
-  have hp1 : 1 ≤ binary64.p := by decide
-  have hpt : binary64.p ≤ binary64.top := by decide
-  have hp53 : binary64.p = 53 := by decide
-  have hk : 64 + binary64.q + 1 ≤ binary64.top := by decide
-  have hpq : binary64.p + binary64.q ≤ binary64.top := by decide
-  generalize hq : binary64.q = q at *
-  have hUn : 0 < 2 ^ q := Nat.two_pow_pos q
-  set U : Int := ((2 ^ q : Nat) : Int) with hU
-  have hUpos : (0 : Int) < U := by rw [hU]; exact_mod_cast hUn
-  have hvabs : v.natAbs ≤ 2 ^ 63 := by omega
-  have hrange : v.natAbs * 2 ^ binary64.q ≤ maxMag binary64 :=
-    int_in_range binary64 hp1 hpt 64 (by rw [hq]; exact hk) (le_trans hvabs (by decide))
-  obtain ⟨hx0rep, hx0⟩ := ofInt_spec binary64 hp1 hpt hrange
-  rw [hq] at hx0
-  -- the rounded head is a multiple of the unit
-  have hdvd : U ∣ rnInt binary64.p (v * U) := rnInt_dvd (Dvd.intro_left v rfl)
-  obtain ⟨r, hr⟩ := hdvd
-  -- |v - r| ≤ 2^10
-  have hclose := rnInt_close binary64.p (v * U)
-  have hzabs : (v * U).natAbs = v.natAbs * 2 ^ q := by rw [Int.natAbs_mul, hU, Int.natAbs_natCast]
-  have hsz : size (v * U).natAbs ≤ 64 + q := by
-    rw [hzabs]; apply size_le.2
-    calc v.natAbs * 2 ^ q ≤ 2 ^ 63 * 2 ^ q := Nat.mul_le_mul_right _ hvabs
-      _ < 2 ^ 64 * 2 ^ q := Nat.mul_lt_mul_of_pos_right (by decide) hUn
-      _ = 2 ^ (64 + q) := (Nat.pow_add 2 64 q).symm
-  have hpow : 2 ^ (size (v * U).natAbs - binary64.p) ≤ 2048 * 2 ^ q := by
-    calc 2 ^ (size (v * U).natAbs - binary64.p) ≤ 2 ^ (11 + q) := Nat.pow_le_pow_right (by omega) (by rw [hp53]; omega)
-      _ = 2048 * 2 ^ q := by rw [Nat.pow_add]
-  have hdiff : (v * U - rnInt binary64.p (v * U)).natAbs = (v - r).natAbs * 2 ^ q := by
-    rw [hr, show v * U - U * r = (v - r) * U by ring, Int.natAbs_mul, hU, Int.natAbs_natCast]
-  have hvr : (v - r).natAbs ≤ 1024 := by
-    rw [hdiff] at hclose
-    have : 2 * ((v - r).natAbs * 2 ^ q) ≤ 2048 * 2 ^ q := le_trans hclose hpow
-    have h' : (2 * (v - r).natAbs) * 2 ^ q ≤ 2048 * 2 ^ q := by rw [Nat.mul_assoc]; exact this
-    have := Nat.le_of_mul_le_mul_right h' hUn
-    omega
-  -- the conversion back to int64 and the wrapping subtraction
-  have htr : truncInt binary64 (ofInt binary64 v) = some r :=
-    truncInt_of_mul binary64 hx0rep.1 (by rw [hq, hx0, hr]; ring)
-  have hd : wrapI64 (v - toI64 binary64 (ofInt binary64 v)) = v - r := by
-    unfold toI64
-    rw [htr]
+/-- `static_cast<double>(z)` of an integer whose units are a float in range: exact -/
+theorem ofInt_float (f : Fmt) (hp : 1 ≤ f.p) (hpt : f.p ≤ f.top) {z : Int} (hr : z.natAbs * 2 ^ f.q ≤ maxMag f)
+    (hfl : IsFloat f.p (z * ((2 ^ f.q : Nat) : Int))) :
+    (ofInt f z).Rep f ∧ (ofInt f z).toInt = z * ((2 ^ f.q : Nat) : Int) := by
+  obtain ⟨h1, h2⟩ := ofInt_spec f hp hpt hr
+  rw [rnInt_exact hp hfl] at h2
+  exact ⟨h1, h2⟩
+
+/-- the inline quick_two_sum `s = a + b; r = b - (s - a)` (no finiteness test) of the integer conversions:
+    exact when `|b| ≤ |a|` or `a = 0` -/
+theorem inlineQuickTwoSum_spec (f : Fmt) (ok : f.Ok) {a b : F} (ha : a.Rep f) (hb : b.Rep f)
+    (hab : b.mag ≤ a.mag ∨ a.toInt = 0) (hg : a.mag + b.mag ≤ maxMag f) :
+    (add f a b).Rep f ∧ (sub f b (sub f (add f a b) a)).Rep f ∧
+    (add f a b).toInt + (sub f b (sub f (add f a b) a)).toInt = a.toInt + b.toInt ∧
+    (add f a b).toInt = rnInt f.p (a.toInt + b.toInt) := by
+  have hp : 1 ≤ f.p := by have := ok.hp2; omega
+  have hpt := ok.hpt
+  rcases hab with hab | ha0
+  · have h := quickTwoSum_spec f ok ha hb hab hg
+    have hfin : (add f a b).isFinite = true := h.1.1
+    have e : quickTwoSum f a b = (add f a b, sub f b (sub f (add f a b) a)) := by
+      unfold quickTwoSum; simp [hfin]
+    rw [e] at h
+    exact h
+  · rw [F.mag_eq_natAbs a, F.mag_eq_natAbs b] at hg
+    have hbr : (a.toInt + b.toInt).natAbs ≤ maxMag f := by rw [ha0, zero_add]; omega
+    obtain ⟨hs, hsv⟩ := add_exact f hp hpt ha.1 hb.1 hbr (by rw [ha0, zero_add]; exact hb.2)
+    rw [ha0, zero_add] at hsv
+    obtain ⟨hz, hzv⟩ := sub_exact f hp hpt hs.1 ha.1 (by rw [hsv, ha0, sub_zero]; omega) (by rw [hsv, ha0, sub_zero]; exact hb.2)
+    rw [hsv, ha0, sub_zero] at hzv
+    obtain ⟨ht, htv⟩ := sub_exact f hp hpt hb.1 hz.1 (by rw [hzv, sub_self]; simp) (by rw [hzv, sub_self]; exact isFloat_zero _)
+    rw [hzv, sub_self] at htv
+    refine ⟨hs, ht, ?_, ?_⟩
+    · rw [hsv, htv, ha0]; ring
+    · rw [hsv, ha0, zero_add, rnInt_exact hp hb.2]
+
+/-- **dd / qd from a 64-bit integer** (`convert_signed`, `convert_unsigned`): the halves `v − low` (a multiple of 2^32 with at
+    most 33 significant bits) and `low = v mod 2^32` are exact doubles, `|v − low| ≥ 2^32 > low` unless `v − low = 0`, so the
+    inline quick_two_sum returns the correctly rounded head and the EXACT remainder: the two limbs sum to `v` for every
+    `−2^63 ≤ v < 2^64`.  Any format with `p ≥ 33` and room for 2^65 units. -/
+theorem ofInt64_exact (f : Fmt) (ok : f.Ok) (h33 : 33 ≤ f.p) (hk : 65 + f.q + 1 ≤ f.top)
+    (v : Int) (h1 : -(2 ^ 63 : Int) ≤ v) (h2 : v < (2 ^ 64 : Int)) :
+    (DD.ofInt64 f v).hi.Rep f ∧ (DD.ofInt64 f v).lo.Rep f ∧
+    (DD.ofInt64 f v).hi.toInt + (DD.ofInt64 f v).lo.toInt = v * ((2 ^ f.q : Nat) : Int) ∧
+    (DD.ofInt64 f v).hi.toInt = rnInt f.p (v * ((2 ^ f.q : Nat) : Int)) := by
+  have hp : 1 ≤ f.p := by omega
+  have hpt := ok.hpt
+  unfold DD.ofInt64
+  by_cases h0 : v = 0
+  · subst h0; simp [pzero_rep, pzero_toInt, rnInt_zero]
+  · rw [if_neg h0]
     simp only
-    by_cases hin : -(2 ^ 63 : Int) ≤ r ∧ r < (2 ^ 63 : Int)
-    · rw [if_pos hin]
-      exact wrapI64_small (by omega) (by omega)
-    · rw [if_neg hin]
-      -- r = 2^63 (it cannot be below −2^63 − 1: |v − r| ≤ 1024 only excludes, so both sides are treated)
-      have hr63 : r ≥ 2 ^ 63 ∨ r < -(2 ^ 63 : Int) := by omega
-      rcases hr63 with hge | hlt
-      · have := wrapI64_sub_pow (z := v - -(2 ^ 63 : Int)) (by omega) (by omega)
-        rw [this]
-        -- r ≤ 2^63 by monotonicity of rounding
-        have hfl : IsFloat binary64.p ((2 ^ 63 : Int) * U) := by
-          unfold IsFloat
-          rw [Int.natAbs_mul, hU, Int.natAbs_natCast]
-          have : ((2 : Int) ^ 63).natAbs = 2 ^ 63 := by decide
-          rw [this, ← Nat.pow_add]
-          exact isFloatN_two_pow _ _ hp1
-        have hle := rnInt_le_of_le hp1 hfl (show v * U ≤ (2 ^ 63 : Int) * U from mul_le_mul_of_nonneg_right (by omega) (le_of_lt hUpos))
-        rw [hr, mul_comm U r] at hle
-        have : r ≤ 2 ^ 63 := le_of_mul_le_mul_right hle hUpos
-        omega
-      · exfalso
-        have hfl : IsFloat binary64.p (-(2 ^ 63 : Int) * U) := by
-          unfold IsFloat
-          rw [Int.natAbs_mul, hU, Int.natAbs_natCast]
-          have : (-(2 : Int) ^ 63).natAbs = 2 ^ 63 := by decide
-          rw [this, ← Nat.pow_add]
-          exact isFloatN_two_pow _ _ hp1
-        have hge := rnInt_ge_of_ge hp1 hfl (show -(2 ^ 63 : Int) * U ≤ v * U from mul_le_mul_of_nonneg_right (by omega) (le_of_lt hUpos))
-        rw [hr, mul_comm U r] at hge
-        have : -(2 ^ 63 : Int) ≤ r := le_of_mul_le_mul_right hge hUpos
-        omega
-  -- the tail is exact
-  have hdabs : (v - r).natAbs < 2 ^ binary64.p := by
-    rw [hp53]; exact lt_of_le_of_lt hvr (by decide)
-  obtain ⟨hx1fin, hx1, hx1fl⟩ := ofInt_exact binary64 hp1 (by rw [hq]; exact hpq) (z := v - r) hdabs
-  rw [hq] at hx1
-  have e : ConvDD.qdFromI64 v p2 p3 = (ofInt binary64 v, ofInt binary64 (v - r), p2, p3) := by
-    unfold ConvDD.qdFromI64
-    rw [if_neg hv0]
-    simp only
-    show (ofInt binary64 v, ofInt binary64 (wrapI64 (v - toI64 binary64 (ofInt binary64 v))), p2, p3) = _
-    rw [hd]
-  rw [e]
-  refine ⟨hx0rep, ⟨hx1fin, hx1fl⟩, ?_, hx0, rfl⟩
-  show (ofInt binary64 v).toInt + (ofInt binary64 (v - r)).toInt = v * U
-  rw [hx0, hx1, hr]; ring
+    have hUn : 0 < 2 ^ f.q := Nat.two_pow_pos _
+    generalize hlow : v % (2 ^ 32 : Int) = low
+    have hl0 : 0 ≤ low := by rw [← hlow]; exact Int.emod_nonneg _ (by norm_num)
+    have hl1 : low < 2 ^ 32 := by rw [← hlow]; exact Int.emod_lt_of_pos _ (by norm_num)
+    obtain ⟨k, hkdef⟩ : ∃ k : Int, v - low = k * 2 ^ 32 := ⟨v / 2 ^ 32, by rw [← hlow]; omega⟩
+    have hkabs : k.natAbs ≤ 2 ^ 32 := by omega
+    have hHabs : (v - low).natAbs ≤ 2 ^ 65 := by omega
+    have hlabs : low.natAbs ≤ 2 ^ 65 := by omega
+    have hp33 : 2 ^ 33 ≤ 2 ^ f.p := Nat.pow_le_pow_right (by decide) h33
+    -- the two halves are exact
+    have hHfl : IsFloat f.p ((v - low) * ((2 ^ f.q : Nat) : Int)) := by
+      have e : (v - low) * ((2 ^ f.q : Nat) : Int) = k * ((2 ^ (32 + f.q) : Nat) : Int) := by
+        rw [hkdef]; push_cast; rw [pow_add]; ring
+      rw [e]
+      exact isFloat_mul_two_pow (isFloat_of_natAbs_lt (by omega)) _
+    have hLfl : IsFloat f.p (low * ((2 ^ f.q : Nat) : Int)) :=
+      isFloat_mul_two_pow (isFloat_of_natAbs_lt (by omega)) _
+    obtain ⟨hHrep, hHv⟩ := ofInt_float f hp hpt (int_in_range f hp hpt 65 hk hHabs) hHfl
+    obtain ⟨hLrep, hLv⟩ := ofInt_float f hp hpt (int_in_range f hp hpt 65 hk hlabs) hLfl
+    -- ordering / range for the inline quick_two_sum
+    have hmagH : (ofInt f (v - low)).mag = (v - low).natAbs * 2 ^ f.q := by
+      rw [F.mag_eq_natAbs, hHv, Int.natAbs_mul, Int.natAbs_natCast]
+    have hmagL : (ofInt f low).mag = low.natAbs * 2 ^ f.q := by
+      rw [F.mag_eq_natAbs, hLv, Int.natAbs_mul, Int.natAbs_natCast]
+    have hab : (ofInt f low).mag ≤ (ofInt f (v - low)).mag ∨ (ofInt f (v - low)).toInt = 0 := by
+      by_cases hk0 : k = 0
+      · right; rw [hHv, hkdef, hk0]; simp
+      · left; rw [hmagH, hmagL]; exact Nat.mul_le_mul_right _ (by omega)
+    have hg : (ofInt f (v - low)).mag + (ofInt f low).mag ≤ maxMag f := by
+      rw [hmagH, hmagL, ← Nat.add_mul]
+      calc ((v - low).natAbs + low.natAbs) * 2 ^ f.q ≤ 2 ^ 65 * 2 ^ f.q := Nat.mul_le_mul_right _ (by omega)
+        _ = 2 ^ (65 + f.q) := (Nat.pow_add 2 65 f.q).symm
+        _ ≤ maxMag f := two_pow_le_maxMag f hp hpt hk
+    obtain ⟨r1, r2, r3, r4⟩ := inlineQuickTwoSum_spec f ok hHrep hLrep hab hg
+    have esum : (ofInt f (v - low)).toInt + (ofInt f low).toInt = v * ((2 ^ f.q : Nat) : Int) := by
+      rw [hHv, hLv]; ring
+    rw [esum] at r3 r4
+    exact ⟨r1, r2, r3, r4⟩
 
 end UVerif.ConvDDLemmas
 
@@ -427,7 +402,9 @@ theorem ddFromLD_exact {x : F} (hf : x.isFinite = true) {z : Int}
   obtain ⟨t1, tv⟩ := narrowLD_grid w1 wv hHabs
   rw [rnInt_exact hp1 hHfl] at tv
   have e : ConvDD.ddFromLD x = ⟨ConvDD.narrowLD (ConvDD.widenLD (ConvDD.narrowLD x)),
-      ConvDD.narrowLD (F64.sub ConvDD.x87 x (ConvDD.widenLD (ConvDD.narrowLD x)))⟩ := rfl
+      ConvDD.narrowLD (F64.sub ConvDD.x87 x (ConvDD.widenLD (ConvDD.narrowLD x)))⟩ := by
+    unfold ConvDD.ddFromLD
+    simp only [t1, if_true]
   rw [e]
   refine ⟨t1, l1, ?_, tv⟩
   show (ConvDD.narrowLD (ConvDD.widenLD (ConvDD.narrowLD x))).toInt +
@@ -435,3 +412,489 @@ theorem ddFromLD_exact {x : F} (hf : x.isFinite = true) {z : Int}
   rw [tv, lv]; ring
 
 end UVerif.ConvDDLemmas
+
+/-! ### truncation toward zero of a normalised dd (`convert_to_signed` / `convert_to_unsigned`) -/
+
+namespace UVerif.ConvDDLemmas
+open UVerif UVerif.F64
+
+
+def sg (s : Bool) (k : Nat) : Int := if s then -(k : Int) else (k : Int)
+
+/-- quotient of a non-negative integer from a remainder witness -/
+theorem ediv_of_rem {V U k r : Int} (hU : 0 < U) (e : V = k * U + r) (h0 : 0 ≤ r) (h1 : r < U) : V / U = k :=
+  ((Int.ediv_emod_unique hU).2 ⟨by rw [e]; ring, h0, h1⟩).1
+
+theorem tdiv_of_rem_nonneg {V U k r : Int} (hU : 0 < U) (hV : 0 ≤ V) (e : V = k * U + r) (h0 : 0 ≤ r) (h1 : r < U) :
+    Int.tdiv V U = k := by
+  rw [Int.tdiv_eq_ediv_of_nonneg hV]; exact ediv_of_rem hU e h0 h1
+
+theorem tdiv_of_rem_nonpos {V U k r : Int} (hU : 0 < U) (hV : V ≤ 0) (e : -V = k * U + r) (h0 : 0 ≤ r) (h1 : r < U) :
+    Int.tdiv V U = -k := by
+  have : V = -(-V) := by ring
+  rw [this, Int.neg_tdiv, tdiv_of_rem_nonneg hU (by omega) e h0 h1]
+
+
+/-- the correction term of `convert_to_signed` on sign/magnitude pairs: head `(s, n)`, tail `(t, m)`, unit `U` -/
+def adj (U : Nat) (s : Bool) (n : Nat) (t : Bool) (m : Nat) : Int :=
+  if n % U = 0 then
+    (if (!s && decide (0 < n)) && (t && decide (0 < m % U)) then -1 else 0)
+      + (if (s && decide (0 < n)) && (!t && decide (0 < m % U)) then 1 else 0)
+  else 0
+
+theorem trunc_adjust (U n m : Nat) (hU : 0 < U) (s t : Bool)
+    (hz : n = 0 → m = 0) (hint : n % U = 0 → n ≠ 0 → m < n)
+    (hfrac : n % U ≠ 0 → m < n % U ∧ n % U + m < U) :
+    sg s (n / U) + sg t (m / U) + adj U s n t m = Int.tdiv (sg s n + sg t m) (U : Int) := by
+  have hUz : (0 : Int) < (U : Int) := by exact_mod_cast hU
+  have hn := Nat.div_add_mod n U
+  have hm := Nat.div_add_mod m U
+  have hr := Nat.mod_lt n hU
+  have hc := Nat.mod_lt m hU
+  unfold adj
+  generalize n / U = a at *
+  generalize n % U = r at *
+  generalize m / U = b at *
+  generalize m % U = c at *
+  have hnz : (n : Int) = (a : Int) * U + r := by rw [← hn]; push_cast; ring
+  have hmz : (m : Int) = (b : Int) * U + c := by rw [← hm]; push_cast; ring
+  symm
+  by_cases hr0 : r = 0
+  · -- integer head
+    subst hr0
+    simp only [if_true]
+    by_cases hn0 : n = 0
+    · have hm0 := hz hn0
+      have ha : a = 0 := by
+        rcases Nat.eq_zero_or_pos a with h | h
+        · exact h
+        · exfalso; have : 0 < U * a := Nat.mul_pos hU h; omega
+      have hb : b = 0 := by
+        rcases Nat.eq_zero_or_pos b with h | h
+        · exact h
+        · exfalso; have : 0 < U * b := Nat.mul_pos hU h; omega
+      subst hn0; subst hm0; subst ha; subst hb
+      cases s <;> cases t <;> simp [sg]
+    · have hlt := hint rfl hn0
+      have hnpos : 0 < n := Nat.pos_of_ne_zero hn0
+      have hltz : (m : Int) < (n : Int) := by exact_mod_cast hlt
+      have hcz : (c : Int) < (U : Int) := by exact_mod_cast hc
+      cases s <;> cases t
+      · -- + +
+        simp only [sg, hnpos, Bool.not_false, Bool.false_eq_true, if_false, decide_true, Bool.true_and, Bool.false_and, Bool.and_false, add_zero]
+        exact (tdiv_of_rem_nonneg (k := (a : Int) + b) (r := (c : Int)) hUz (by omega) (by rw [hnz, hmz]; push_cast; ring) (by omega) hcz).trans (by ring)
+      · -- + −
+        by_cases hc0 : c = 0
+        · subst hc0
+          simp only [sg, hnpos, Bool.not_false, Bool.not_true, if_true, Bool.false_eq_true, if_false, decide_true, Bool.true_and, Bool.false_and, Bool.and_false, lt_self_iff_false, decide_false, add_zero]
+          exact (tdiv_of_rem_nonneg (k := (a : Int) - b) (r := 0) hUz (by omega) (by rw [hnz, hmz]; push_cast; ring) (by omega) hUz).trans (by ring)
+        · have hcpos : 0 < c := Nat.pos_of_ne_zero hc0
+          simp only [sg, hnpos, hcpos, Bool.not_false, Bool.not_true, if_true, Bool.false_eq_true, if_false, decide_true, Bool.true_and, Bool.false_and, Bool.and_false, Bool.and_self, add_zero]
+          exact (tdiv_of_rem_nonneg (k := (a : Int) - b - 1) (r := (U : Int) - c) hUz (by omega) (by rw [hnz, hmz]; push_cast; ring) (by omega) (by omega)).trans (by ring)
+      · -- − +
+        by_cases hc0 : c = 0
+        · subst hc0
+          simp only [sg, hnpos, Bool.not_false, Bool.not_true, if_true, Bool.false_eq_true, if_false, decide_true, Bool.true_and, Bool.false_and, Bool.and_false, lt_self_iff_false, decide_false, add_zero, zero_add]
+          exact (tdiv_of_rem_nonpos (k := (a : Int) - b) (r := 0) hUz (by omega) (by rw [hnz, hmz]; push_cast; ring) (by omega) hUz).trans (by ring)
+        · have hcpos : 0 < c := Nat.pos_of_ne_zero hc0
+          simp only [sg, hnpos, hcpos, Bool.not_false, Bool.not_true, if_true, Bool.false_eq_true, if_false, decide_true, Bool.true_and, Bool.false_and, Bool.and_false, Bool.and_self, add_zero, zero_add]
+          exact (tdiv_of_rem_nonpos (k := (a : Int) - b - 1) (r := (U : Int) - c) hUz (by omega) (by rw [hnz, hmz]; push_cast; ring) (by omega) (by omega)).trans (by ring)
+      · -- − −
+        simp only [sg, hnpos, Bool.not_true, if_true, Bool.false_eq_true, if_false, decide_true, Bool.true_and, Bool.false_and, Bool.and_false, add_zero]
+        exact (tdiv_of_rem_nonpos (k := (a : Int) + b) (r := (c : Int)) hUz (by omega) (by rw [hnz, hmz]; push_cast; ring) (by omega) hcz).trans (by ring)
+  · -- fractional head: the tail cannot reach the next integer
+    obtain ⟨h1, h2⟩ := hfrac hr0
+    have hrpos : 0 < r := Nat.pos_of_ne_zero hr0
+    have hb : b = 0 := by
+      rcases Nat.eq_zero_or_pos b with h | h
+      · exact h
+      · exfalso
+        have : U ≤ U * b := Nat.le_mul_of_pos_right U h
+        omega
+    subst hb
+    have hmc : m = c := by omega
+    subst hmc
+    simp only [hr0, if_false, add_zero]
+    have h1z : (m : Int) < (r : Int) := by exact_mod_cast h1
+    have h2z : (r : Int) + m < (U : Int) := by exact_mod_cast h2
+    cases s <;> cases t
+    · simp only [sg, Bool.false_eq_true, if_false]
+      exact (tdiv_of_rem_nonneg (k := (a : Int)) (r := (r : Int) + m) hUz (by omega) (by rw [hnz]; ring) (by omega) h2z).trans (by simp)
+    · simp only [sg, Bool.false_eq_true, if_false, if_true]
+      exact (tdiv_of_rem_nonneg (k := (a : Int)) (r := (r : Int) - m) hUz (by rw [hnz]; nlinarith [mul_nonneg (Int.natCast_nonneg a) (le_of_lt hUz)]) (by rw [hnz]; ring) (by omega) (by omega)).trans (by simp)
+    · simp only [sg, Bool.false_eq_true, if_false, if_true]
+      exact (tdiv_of_rem_nonpos (k := (a : Int)) (r := (r : Int) - m) hUz (by rw [hnz]; nlinarith [mul_nonneg (Int.natCast_nonneg a) (le_of_lt hUz)]) (by rw [hnz]; ring) (by omega) (by omega)).trans (by simp)
+    · simp only [sg, if_true]
+      exact (tdiv_of_rem_nonpos (k := (a : Int)) (r := (r : Int) + m) hUz (by omega) (by rw [hnz]; ring) (by omega) h2z).trans (by simp)
+
+
+
+theorem sg_eq_toInt (s : Bool) (n : Nat) : sg s n = (F.fin s n).toInt := rfl
+
+theorem flt_fin_pzero (s : Bool) (n : Nat) : flt (.fin s n) pzero = (s && decide (0 < n)) := by
+  cases s <;> simp [flt, pzero, F.toInt]
+
+theorem fgt_fin_pzero (s : Bool) (n : Nat) : fgt (.fin s n) pzero = (!s && decide (0 < n)) := by
+  cases s <;> simp [fgt, flt, pzero, F.toInt]
+
+/-- the model's correction term is `adj` -/
+theorem tailAdjust_eq_adj (f : Fmt) (s t : Bool) (n m : Nat) :
+    DD.tailAdjust f (.fin s n) (.fin t m) = adj (2 ^ f.q) s n t m := by
+  unfold DD.tailAdjust adj
+  simp only [isIntegral, fracPart, flt_fin_pzero, fgt_fin_pzero, beq_iff_eq]
+
+/-- what normalisation `2|lo| ≤ ulp(hi)` gives for the truncation: a fractional head keeps the tail inside its integer
+    interval; an integer head dominates the tail -/
+theorem norm_trunc_facts {p n m : Nat} (q : Nat) (hp : 1 ≤ p) (hfl : IsFloatN p n) (norm : 2 * m ≤ ulpNat p n) :
+    (n = 0 → m = 0) ∧ (n ≠ 0 → 2 * m ≤ n) ∧ (n % 2 ^ q ≠ 0 → m < n % 2 ^ q ∧ n % 2 ^ q + m < 2 ^ q) := by
+  unfold ulpNat at norm
+  refine ⟨?_, ?_, ?_⟩
+  · intro h0; subst h0
+    have : size 0 = 0 := by simp [size]
+    rw [this] at norm
+    simp at norm; omega
+  · intro hn0
+    have h1 : 2 ^ (size n - p) ≤ 2 ^ (size n - 1) := Nat.pow_le_pow_right (by decide) (by omega)
+    have h2 := two_pow_size_le hn0
+    omega
+  · intro hr
+    set e := size n - p with he
+    have hd : 2 ^ e ∣ n := isFloatN_canon hp hfl
+    have heq : e < q := by
+      by_contra hc
+      have : 2 ^ q ∣ 2 ^ e := Nat.pow_dvd_pow 2 (by omega)
+      exact hr (Nat.mod_eq_zero_of_dvd (Nat.dvd_trans this hd))
+    have hU : 2 ^ e ∣ 2 ^ q := Nat.pow_dvd_pow 2 (by omega)
+    have hdr : 2 ^ e ∣ n % 2 ^ q := (Nat.dvd_mod_iff hU).2 hd
+    have hrpos : 0 < n % 2 ^ q := Nat.pos_of_ne_zero hr
+    have hrlt : n % 2 ^ q < 2 ^ q := Nat.mod_lt _ (Nat.two_pow_pos q)
+    have h1 : 2 ^ e ≤ n % 2 ^ q := Nat.le_of_dvd hrpos hdr
+    have h2 : 2 ^ e ≤ 2 ^ q - n % 2 ^ q := Nat.le_of_dvd (by omega) (Nat.dvd_sub hU hdr)
+    have hepos : 0 < 2 ^ e := Nat.two_pow_pos e
+    omega
+
+theorem toI64_fin (f : Fmt) (s : Bool) (n : Nat) :
+    toI64 f (.fin s n) = (if -(2 ^ 63 : Int) ≤ sg s (n / 2 ^ f.q) ∧ sg s (n / 2 ^ f.q) < (2 ^ 63 : Int) then sg s (n / 2 ^ f.q) else -(2 ^ 63 : Int)) := by
+  unfold toI64 truncInt sg
+  simp only [Nat.shiftRight_eq_div_pow]
+
+theorem sg_bound (s : Bool) {k B : Nat} (h : k ≤ B) : -(B : Int) ≤ sg s k ∧ sg s k ≤ (B : Int) := by
+  unfold sg; cases s <;> simp <;> omega
+
+/-- **`(long long)dd` is the value truncated toward zero** — for every finite dd whose tail is at most half an ulp of the head
+    (normalised), with `|hi| ≤ 2^63` and `|hi + lo| < 2^63`; every float format. -/
+theorem toInt64_trunc (f : Fmt) (hp : 1 ≤ f.p) (s t : Bool) (n m : Nat) (hfl : IsFloatN f.p n)
+    (norm : 2 * m ≤ ulpNat f.p n) (hn : n ≤ 2 ^ 63 * 2 ^ f.q)
+    (hr : ((F.fin s n).toInt + (F.fin t m).toInt).natAbs < 2 ^ 63 * 2 ^ f.q) :
+    DD.toInt64 f ⟨.fin s n, .fin t m⟩ = Int.tdiv ((F.fin s n).toInt + (F.fin t m).toInt) ((2 ^ f.q : Nat) : Int) := by
+  have hU : 0 < 2 ^ f.q := Nat.two_pow_pos _
+  obtain ⟨hz, hdom, hfrac⟩ := norm_trunc_facts f.q hp hfl norm
+  have key := trunc_adjust (2 ^ f.q) n m hU s t hz (fun _ h0 => by have := hdom h0; omega) hfrac
+  rw [sg_eq_toInt s n, sg_eq_toInt t m] at key
+  -- magnitudes of the three terms
+  have hTh := sg_bound s (Nat.div_le_of_le_mul (by rw [Nat.mul_comm]; exact hn) : n / 2 ^ f.q ≤ 2 ^ 63)
+  have hm2 : m ≤ 2 ^ 62 * 2 ^ f.q := by
+    by_cases h0 : n = 0
+    · rw [hz h0]; exact Nat.zero_le _
+    · have := hdom h0
+      have e : 2 ^ 63 * 2 ^ f.q = 2 * (2 ^ 62 * 2 ^ f.q) := by
+        have : (2 : Nat) ^ 63 = 2 * 2 ^ 62 := by norm_num
+        rw [this, Nat.mul_assoc]
+      omega
+  have hTl := sg_bound t (Nat.div_le_of_le_mul (by rw [Nat.mul_comm]; exact hm2) : m / 2 ^ f.q ≤ 2 ^ 62)
+  have hR : (Int.tdiv ((F.fin s n).toInt + (F.fin t m).toInt) ((2 ^ f.q : Nat) : Int)).natAbs < 2 ^ 63 := by
+    rw [Int.natAbs_tdiv, Int.natAbs_natCast]
+    exact Nat.div_lt_of_lt_mul (by rw [Nat.mul_comm]; exact hr)
+  have hadj : -1 ≤ adj (2 ^ f.q) s n t m ∧ adj (2 ^ f.q) s n t m ≤ 1 := by
+    unfold adj
+    split_ifs <;> simp
+  unfold DD.toInt64
+  simp only
+  rw [tailAdjust_eq_adj, toI64_fin, toI64_fin, ← key]
+  generalize sg s (n / 2 ^ f.q) = Th at *
+  generalize sg t (m / 2 ^ f.q) = Tl at *
+  generalize adj (2 ^ f.q) s n t m = A at *
+  rw [← key] at hR
+  have hTl' : -(2 ^ 63 : Int) ≤ Tl ∧ Tl < (2 ^ 63 : Int) := by
+    obtain ⟨a, b⟩ := hTl; push_cast at a b; constructor <;> omega
+  rw [if_pos hTl']
+  push_cast at hTh
+  unfold wrapI64
+  simp only
+  split_ifs <;> omega
+
+
+theorem ofNatExact_toInt (f : Fmt) (c : Nat) : (ofNatExact f c).toInt = ((c * 2 ^ f.q : Nat) : Int) := by
+  simp [ofNatExact, F.toInt, Nat.shiftLeft_eq]
+
+/-- the head of an unsigned read as a 64-bit pattern is congruent to the truncated head modulo 2^64
+    (`hi < 2^63 ? uint64_t(int64_t(hi)) : uint64_t(hi)`), for `−2^63 ≤ trunc(hi) ≤ 2^64` -/
+theorem uhead_congr (f : Fmt) (s : Bool) (n : Nat) (hlo : s = true → n / 2 ^ f.q ≤ 2 ^ 63) (hhi : n / 2 ^ f.q ≤ 2 ^ 64) :
+    (((if flt (.fin s n) (ofNatExact f (2 ^ 63)) then ofSigned 64 (toI64 f (.fin s n)) else toU64 f (.fin s n) : Nat) : Int)
+      - sg s (n / 2 ^ f.q)) % (2 ^ 64 : Int) = 0 := by
+  have hU : 0 < 2 ^ f.q := Nat.two_pow_pos _
+  have hflt : flt (.fin s n) (ofNatExact f (2 ^ 63)) = decide (sg s n < ((2 ^ 63 * 2 ^ f.q : Nat) : Int)) := by
+    unfold flt
+    rw [ofNatExact_toInt]
+    simp [ofNatExact, sg_eq_toInt]
+  rw [hflt]
+  have hdm := Nat.div_add_mod n (2 ^ f.q)
+  have hml := Nat.mod_lt n hU
+  by_cases hc : sg s n < ((2 ^ 63 * 2 ^ f.q : Nat) : Int)
+  · -- below 2^63: through int64_t
+    rw [decide_eq_true hc, if_pos rfl, toI64_fin]
+    have hlt : sg s (n / 2 ^ f.q) < (2 ^ 63 : Int) := by
+      cases s
+      · simp only [sg, Bool.false_eq_true, if_false] at hc ⊢
+        have h1 : n < 2 ^ 63 * 2 ^ f.q := by exact_mod_cast hc
+        have : n / 2 ^ f.q < 2 ^ 63 := Nat.div_lt_of_lt_mul (by rw [Nat.mul_comm]; exact h1)
+        exact_mod_cast this
+      · simp only [sg, if_true]
+        have : (0 : Int) ≤ ((n / 2 ^ f.q : Nat) : Int) := Int.natCast_nonneg _
+        omega
+    have hge : -(2 ^ 63 : Int) ≤ sg s (n / 2 ^ f.q) := by
+      cases s
+      · simp only [sg, Bool.false_eq_true, if_false]
+        have : (0 : Int) ≤ ((n / 2 ^ f.q : Nat) : Int) := Int.natCast_nonneg _
+        omega
+      · simp only [sg, if_true]
+        have := hlo rfl
+        have : ((n / 2 ^ f.q : Nat) : Int) ≤ (2 ^ 63 : Int) := by exact_mod_cast this
+        omega
+    rw [if_pos ⟨hge, hlt⟩]
+    generalize sg s (n / 2 ^ f.q) = T at *
+    unfold ofSigned
+    have e : (((2 : Nat) ^ 64 : Nat) : Int) = 18446744073709551616 := by norm_num
+    rw [e]
+    omega
+  · -- from 2^63 on: through uint64_t
+    rw [decide_eq_false hc, if_neg (by simp)]
+    have hs : s = false := by
+      cases s
+      · rfl
+      · exfalso; apply hc
+        simp only [sg, if_true]
+        have h1 : (0 : Int) ≤ (n : Int) := Int.natCast_nonneg n
+        have h2 : (0 : Int) ≤ ((2 ^ 63 * 2 ^ f.q : Nat) : Int) := Int.natCast_nonneg _
+        have h3 : 0 < 2 ^ 63 * 2 ^ f.q := Nat.mul_pos (by norm_num) hU
+        have h4 : (0 : Int) < ((2 ^ 63 * 2 ^ f.q : Nat) : Int) := by exact_mod_cast h3
+        omega
+    subst hs
+    simp only [sg, Bool.false_eq_true, if_false] at hc ⊢
+    have h1 : 2 ^ 63 * 2 ^ f.q ≤ n := by
+      have : ¬ n < 2 ^ 63 * 2 ^ f.q := by intro h; exact hc (by exact_mod_cast h)
+      omega
+    have hz : 2 ^ 63 ≤ n / 2 ^ f.q := (Nat.le_div_iff_mul_le hU).2 h1
+    unfold toU64 truncInt
+    simp only [Bool.false_eq_true, if_false, Nat.shiftRight_eq_div_pow]
+    generalize n / 2 ^ f.q = z at *
+    have hz' : ¬ ((z : Int) < (2 ^ 63 : Int)) := by
+      have : (2 ^ 63 : Int) ≤ (z : Int) := by exact_mod_cast hz
+      omega
+    rw [if_neg hz']
+    have hzi : (z : Int) ≤ (2 ^ 64 : Int) := by exact_mod_cast hhi
+    have hzl : (2 ^ 63 : Int) ≤ (z : Int) := by exact_mod_cast hz
+    unfold ofSigned
+    have e : (((2 : Nat) ^ 64 : Nat) : Int) = 18446744073709551616 := by norm_num
+    rw [e]
+    split_ifs <;> omega
+
+/-- **`(unsigned long long)dd` is the value truncated toward zero** — for every finite normalised dd with
+    `−1 < hi + lo < 2^64` and `|hi| ≤ 2^64` (values in [2^63, 2^64) included since the repair); every float format. -/
+theorem toUInt64_trunc (f : Fmt) (hp : 1 ≤ f.p) (s t : Bool) (n m : Nat) (hfl : IsFloatN f.p n)
+    (norm : 2 * m ≤ ulpNat f.p n) (hn : n ≤ 2 ^ 64 * 2 ^ f.q)
+    (hlo : -((2 ^ f.q : Nat) : Int) < (F.fin s n).toInt + (F.fin t m).toInt)
+    (hhi : (F.fin s n).toInt + (F.fin t m).toInt < ((2 ^ 64 * 2 ^ f.q : Nat) : Int)) :
+    ((DD.toUInt64 f ⟨.fin s n, .fin t m⟩ : Nat) : Int)
+      = Int.tdiv ((F.fin s n).toInt + (F.fin t m).toInt) ((2 ^ f.q : Nat) : Int) := by
+  have hU : 0 < 2 ^ f.q := Nat.two_pow_pos _
+  have hUz : (0 : Int) < ((2 ^ f.q : Nat) : Int) := by exact_mod_cast hU
+  obtain ⟨hz, hdom, hfrac⟩ := norm_trunc_facts f.q hp hfl norm
+  have key := trunc_adjust (2 ^ f.q) n m hU s t hz (fun _ h0 => by have := hdom h0; omega) hfrac
+  rw [sg_eq_toInt s n, sg_eq_toInt t m] at key
+  -- a negative head is tiny: |hi| < 2 units
+  have hneg : s = true → n / 2 ^ f.q ≤ 2 ^ 63 := by
+    intro hs; subst hs
+    have hv : (F.fin t m).toInt ≤ (m : Int) := by
+      have : (0 : Int) ≤ (m : Int) := Int.natCast_nonneg m
+      cases t
+      · simp [F.toInt]
+      · simp only [F.toInt, if_true]; omega
+    have hh : (F.fin true n).toInt = -(n : Int) := by simp [F.toInt]
+    rw [hh] at hlo
+    have h2m : 2 * (m : Int) ≤ (n : Int) := by
+      by_cases h0 : n = 0
+      · rw [hz h0, h0]; simp
+      · have := hdom h0; exact_mod_cast this
+    have hlt : (n : Int) < ((2 * 2 ^ f.q : Nat) : Int) := by
+      have e : ((2 * 2 ^ f.q : Nat) : Int) = 2 * ((2 ^ f.q : Nat) : Int) := by push_cast; ring
+      rw [e]
+      generalize ((2 ^ f.q : Nat) : Int) = Uz at *
+      omega
+    have : n < 2 * 2 ^ f.q := by exact_mod_cast hlt
+    have : n / 2 ^ f.q < 2 := Nat.div_lt_of_lt_mul (by rw [Nat.mul_comm]; exact this)
+    omega
+  have hTh64 : n / 2 ^ f.q ≤ 2 ^ 64 := Nat.div_le_of_le_mul (by rw [Nat.mul_comm]; exact hn)
+  have hm2 : m ≤ 2 ^ 63 * 2 ^ f.q := by
+    by_cases h0 : n = 0
+    · rw [hz h0]; exact Nat.zero_le _
+    · have := hdom h0
+      have e : 2 ^ 64 * 2 ^ f.q = 2 * (2 ^ 63 * 2 ^ f.q) := by
+        have : (2 : Nat) ^ 64 = 2 * 2 ^ 63 := by norm_num
+        rw [this, Nat.mul_assoc]
+      omega
+  have hTl := sg_bound t (Nat.div_le_of_le_mul (by rw [Nat.mul_comm]; exact hm2) : m / 2 ^ f.q ≤ 2 ^ 63)
+  -- 0 ≤ R < 2^64
+  have hR0 : 0 ≤ Int.tdiv ((F.fin s n).toInt + (F.fin t m).toInt) ((2 ^ f.q : Nat) : Int) := by
+    by_cases hv : 0 ≤ (F.fin s n).toInt + (F.fin t m).toInt
+    · exact Int.tdiv_nonneg hv (le_of_lt hUz)
+    · have h0 := tdiv_of_rem_nonpos (V := (F.fin s n).toInt + (F.fin t m).toInt) (U := ((2 ^ f.q : Nat) : Int)) (k := 0)
+        (r := -((F.fin s n).toInt + (F.fin t m).toInt)) hUz (by omega) (by ring) (by omega) (by omega)
+      rw [h0]; simp
+  have hR1 : Int.tdiv ((F.fin s n).toInt + (F.fin t m).toInt) ((2 ^ f.q : Nat) : Int) < (2 ^ 64 : Int) := by
+    have hna : (Int.tdiv ((F.fin s n).toInt + (F.fin t m).toInt) ((2 ^ f.q : Nat) : Int)).natAbs < 2 ^ 64 := by
+      rw [Int.natAbs_tdiv, Int.natAbs_natCast]
+      apply Nat.div_lt_of_lt_mul
+      rw [Nat.mul_comm]
+      have hle : ((2 ^ f.q : Nat) : Int) ≤ ((2 ^ 64 * 2 ^ f.q : Nat) : Int) := by
+        have : 2 ^ f.q ≤ 2 ^ 64 * 2 ^ f.q := Nat.le_mul_of_pos_left _ (by norm_num)
+        exact_mod_cast this
+      have : (((F.fin s n).toInt + (F.fin t m).toInt).natAbs : Int) < ((2 ^ 64 * 2 ^ f.q : Nat) : Int) := by
+        generalize ((2 ^ 64 * 2 ^ f.q : Nat) : Int) = B at *
+        generalize ((2 ^ f.q : Nat) : Int) = Uz at *
+        omega
+      exact_mod_cast this
+    omega
+  have hcong := uhead_congr f s n hneg hTh64
+  unfold DD.toUInt64
+  simp only
+  rw [tailAdjust_eq_adj, toI64_fin (s := t)]
+  have hTl' : -(2 ^ 63 : Int) ≤ sg t (m / 2 ^ f.q) ∧ sg t (m / 2 ^ f.q) < (2 ^ 63 : Int) ∨ sg t (m / 2 ^ f.q) = 2 ^ 63 := by
+    obtain ⟨a, b⟩ := hTl; push_cast at a b
+    by_cases h : sg t (m / 2 ^ f.q) = 2 ^ 63
+    · right; exact h
+    · left; constructor <;> omega
+  rw [← key] at hR0 hR1 ⊢
+  generalize ((if flt (F.fin s n) (ofNatExact f (2 ^ 63)) = true then ofSigned 64 (toI64 f (F.fin s n)) else toU64 f (F.fin s n) : Nat) : Int) = H at *
+  generalize sg s (n / 2 ^ f.q) = Th at *
+  generalize sg t (m / 2 ^ f.q) = Tl at *
+  generalize adj (2 ^ f.q) s n t m = A at *
+  unfold ofSigned
+  have e : (((2 : Nat) ^ 64 : Nat) : Int) = 18446744073709551616 := by norm_num
+  rw [e]
+  rcases hTl' with h | h
+  · rw [if_pos h]; omega
+  · have : ¬ (-(2 ^ 63 : Int) ≤ Tl ∧ Tl < (2 ^ 63 : Int)) := by omega
+    rw [if_neg this]; omega
+
+
+theorem nez_fin (s : Bool) (n : Nat) : nez (.fin s n) = decide (n ≠ 0) := by
+  by_cases h : n = 0
+  · subst h; cases s <;> simp [nez, feq, pzero, F.toInt]
+  · cases s <;> simp [nez, feq, pzero, F.toInt, h]
+
+theorem toI64_zero (f : Fmt) (z : Bool) : toI64 f (.fin z 0) = 0 := by
+  cases z <;> simp [toI64, truncInt]
+
+theorem ofSigned_wrapI64 (z : Int) : ofSigned 64 (wrapI64 z) = ofSigned 64 z := by
+  unfold ofSigned wrapI64
+  have e : (((2 : Nat) ^ 64 : Nat) : Int) = 18446744073709551616 := by norm_num
+  rw [e]
+  simp only
+  split_ifs <;> omega
+
+theorem ofSigned_lt (z : Int) : ofSigned 64 z < 18446744073709551616 := by
+  unfold ofSigned
+  have e : (((2 : Nat) ^ 64 : Nat) : Int) = 18446744073709551616 := by norm_num
+  rw [e]
+  omega
+
+theorem ofSigned_mod (z : Int) : ofSigned 64 z % 18446744073709551616 = ofSigned 64 z :=
+  Nat.mod_eq_of_lt (ofSigned_lt z)
+
+/-- a qd whose two lower limbs are zero reads like the dd of its two leading limbs -/
+theorem qdToInt_two_limbs (s t z2 z3 : Bool) (n m : Nat) :
+    ConvDD.qdToInt 64 true (.fin s n, .fin t m, .fin z2 0, .fin z3 0) = ofSigned 64 (DD.toInt64 ConvDD.b64 ⟨.fin s n, .fin t m⟩) := by
+  unfold ConvDD.qdToInt DD.toInt64
+  rw [ofSigned_wrapI64]
+  simp only [List.foldl, ConvDD.qdToIntStep, Bool.not_true, Bool.false_and, Bool.false_eq_true, if_false, fracPart, nez_fin,
+    toI64_zero, Nat.zero_mod, add_zero, zero_add, flt_fin_pzero, fgt_fin_pzero]
+  rw [tailAdjust_eq_adj]
+  unfold adj
+  by_cases hr : n % 2 ^ ConvDD.b64.q = 0
+  · by_cases hc : m % 2 ^ ConvDD.b64.q = 0
+    · simp [hr, hc, ofSigned_mod]
+    · simp only [hr, hc, ofSigned_mod, if_true, decide_true, decide_false, ne_eq, not_true_eq_false, not_false_eq_true,
+        Bool.not_false, Bool.and_true, Bool.true_and, Bool.false_eq_true, if_false, add_zero]
+      norm_num [ofSigned_mod]
+      congr 1; ring
+  · cases s <;> simp [hr, ofSigned_mod]
+
+
+/-- a normalised pair whose sum stays below `2^K` in magnitude has its head at most `2^K` -/
+theorem head_le_of_sum_lt {p n m : Nat} (K : Nat) (hp : 1 ≤ p) (hfl : IsFloatN p n) (norm : 2 * m ≤ ulpNat p n)
+    (h : n < 2 ^ K + m) : n ≤ 2 ^ K := by
+  by_contra hc
+  have hgt : 2 ^ K < n := by omega
+  have hn0 : n ≠ 0 := by have := Nat.two_pow_pos K; omega
+  have hsz : K + 1 ≤ size n := by
+    by_contra h2
+    have : size n ≤ K := by omega
+    have := size_le.1 this
+    omega
+  unfold ulpNat at norm
+  have hd : 2 ^ (size n - p) ∣ n := isFloatN_canon hp hfl
+  have hgpos : 0 < 2 ^ (size n - p) := Nat.two_pow_pos _
+  rcases Nat.lt_or_ge (size n) (K + 2) with h1 | h1
+  · -- same binade as 2^K .. 2^(K+1)
+    have hsK : size n = K + 1 := by omega
+    have hgK : 2 ^ (size n - p) ∣ 2 ^ K := Nat.pow_dvd_pow 2 (by omega)
+    have hdiff : 2 ^ (size n - p) ∣ n - 2 ^ K := Nat.dvd_sub hd hgK
+    have : 2 ^ (size n - p) ≤ n - 2 ^ K := Nat.le_of_dvd (by omega) hdiff
+    omega
+  · have h2 := two_pow_size_le hn0
+    have h3 : 2 ^ (size n - p) ≤ 2 ^ (size n - 1) := Nat.pow_le_pow_right (by decide) (by omega)
+    have h4 : 2 ^ (K + 1) ≤ 2 ^ (size n - 1) := Nat.pow_le_pow_right (by decide) (by omega)
+    have h5 : 2 ^ (K + 1) = 2 * 2 ^ K := by rw [Nat.pow_succ]; ring
+    omega
+
+theorem natAbs_sum_ge (s t : Bool) (n m : Nat) : n ≤ ((F.fin s n).toInt + (F.fin t m).toInt).natAbs + m := by
+  cases s <;> cases t <;> simp only [F.toInt, Bool.false_eq_true, if_false, if_true] <;> omega
+
+/-- `toInt64_trunc` with the bound on the head derived from the bound on the value -/
+theorem toInt64_trunc' (f : Fmt) (hp : 1 ≤ f.p) (s t : Bool) (n m : Nat) (hfl : IsFloatN f.p n)
+    (norm : 2 * m ≤ ulpNat f.p n)
+    (hr : ((F.fin s n).toInt + (F.fin t m).toInt).natAbs < 2 ^ 63 * 2 ^ f.q) :
+    DD.toInt64 f ⟨.fin s n, .fin t m⟩ = Int.tdiv ((F.fin s n).toInt + (F.fin t m).toInt) ((2 ^ f.q : Nat) : Int) := by
+  have h1 := natAbs_sum_ge s t n m
+  have hn : n ≤ 2 ^ 63 * 2 ^ f.q := by
+    rw [← Nat.pow_add]
+    apply head_le_of_sum_lt (63 + f.q) hp hfl norm
+    rw [Nat.pow_add]; omega
+  exact toInt64_trunc f hp s t n m hfl norm hn hr
+
+/-- `toUInt64_trunc` with the bound on the head derived from the bounds on the value -/
+theorem toUInt64_trunc' (f : Fmt) (hp : 1 ≤ f.p) (s t : Bool) (n m : Nat) (hfl : IsFloatN f.p n)
+    (norm : 2 * m ≤ ulpNat f.p n)
+    (hlo : -((2 ^ f.q : Nat) : Int) < (F.fin s n).toInt + (F.fin t m).toInt)
+    (hhi : (F.fin s n).toInt + (F.fin t m).toInt < ((2 ^ 64 * 2 ^ f.q : Nat) : Int)) :
+    ((DD.toUInt64 f ⟨.fin s n, .fin t m⟩ : Nat) : Int)
+      = Int.tdiv ((F.fin s n).toInt + (F.fin t m).toInt) ((2 ^ f.q : Nat) : Int) := by
+  have h1 := natAbs_sum_ge s t n m
+  have hle : ((2 ^ f.q : Nat) : Int) ≤ ((2 ^ 64 * 2 ^ f.q : Nat) : Int) := by
+    have : 2 ^ f.q ≤ 2 ^ 64 * 2 ^ f.q := Nat.le_mul_of_pos_left _ (by norm_num)
+    exact_mod_cast this
+  have habs : ((F.fin s n).toInt + (F.fin t m).toInt).natAbs < 2 ^ 64 * 2 ^ f.q := by
+    have : ((((F.fin s n).toInt + (F.fin t m).toInt).natAbs : Nat) : Int) < ((2 ^ 64 * 2 ^ f.q : Nat) : Int) := by
+      generalize ((2 ^ 64 * 2 ^ f.q : Nat) : Int) = B at *
+      generalize ((2 ^ f.q : Nat) : Int) = Uz at *
+      omega
+    exact_mod_cast this
+  have hn : n ≤ 2 ^ 64 * 2 ^ f.q := by
+    rw [← Nat.pow_add]
+    apply head_le_of_sum_lt (64 + f.q) hp hfl norm
+    rw [Nat.pow_add]; omega
+  exact toUInt64_trunc f hp s t n m hfl norm hn hlo hhi
+
+end UVerif.ConvDDLemmas
+
